@@ -120,9 +120,9 @@ PROPS = {
                           dict(name="fe", family="fe", profile="fe", quick=900, thorough=12000, tags=["request_unchanged", "panic"])]),
     "C20": dict(theorems=["C20_str_min", "C20_str_max", "C20_str_len", "C20_slice_min", "C20_slice_max", "C20_slice_len", "C20_int_cmp", "C20_float_cmp",
                           "C20_nan_fails_every_comparison", "C20_str_oneof", "C20_int_oneof", "C20_slice_contains", "C20_has_prefix", "C20_has_suffix",
-                          "C20_contains", "C20_classes", "C20_contains_upper", "C20_contains_digit", "C20_contains_special", "C20_uuid",
+                          "C20_contains", "C20_classes", "C20_contains_upper", "C20_contains_digit", "C20_contains_special", "C20_uuid", "C20_email", "C20_email_label",
                           "C20_time_after", "C20_time_before", "C20_time_eq"],
-                cone=["Model/Preds.v", "Proofs/PredsP.v"],
+                cone=["Model/Preds.v", "Proofs/PredsP.v", "Proofs/EmailP.v"],
                 rule="single-test schemas for every built-in of every type; subjects at n-1, n, n+1, all 256 single bytes for the character classes, class-edge characters, multi-byte and invalid UTF-8, equal instants in three zones +-1ns, NaN/Inf/-0 and nextafter neighbours, near-miss UUIDs and e-mail addresses (every position perturbed, label lengths 61..64), slices of strings, ints and pointers; plus random; distinct = distinct (test, parameter) pairs",
                 families=[sat("preds", "preds", 7000, 30000, ["pred"])]),
 }
